@@ -103,6 +103,83 @@ def gen_r1n(rng, n):
                       'r1n-save', 'r1n-load', 'r1n-q', 'r1n-children 1', 'r1n-children 2', 'r1n-parent 12']
 
 
+def _pairs(rng, ents, vals, kmax=4):
+    n = rng.randint(0, kmax)
+    if n == 0: return '-'
+    items = []
+    for _ in range(n):
+        items.append(f'{rng.choice(ents)}:{rng.choice(vals)}')
+    return ','.join(items)          # a repeated entity is allowed: the last binding wins (HashMap insert)
+
+
+def _diffs(rng, ents, vals, kmax=5):
+    n = rng.randint(0, kmax)
+    if n == 0: return '-'
+    items = []
+    for _ in range(n):
+        k = rng.choice(['I', 'S', 'RM', 'AM', 'D', 'D', 'RM', 'AM'])
+        e = rng.choice(ents)
+        if k in ('I', 'S'): items.append(f'{e}={k}')
+        elif k in ('RM', 'AM'): items.append(f'{e}={k}:{rng.choice(vals)}')
+        else: items.append(f'{e}=D:{rng.choice(vals)}:{rng.choice(vals)}')
+    return ','.join(items)
+
+
+def gen_diff(rng, n):
+    """the diff layer (core/src/types/diff.rs): diff_store, apply_diff, update_with_actual with every flag combination, with diff
+    stores computed from actual values and with arbitrary ones (stale records, Skipped, Identical), between ordinary operations,
+    saves and reloads.  After an apply the bucket order depends on the HashMap order of the diff store, so until the next reload only
+    order-free queries are asked (`q sentfor`, `q map`)."""
+    ents, vals = [1, 2, 3, 4, 5, 6], ['a', 'b', 'c']
+    for _ in range(n):
+        case, canonical = [], True
+        for _ in range(rng.randint(2, 18)):
+            r = rng.random()
+            e, v = rng.choice(ents), rng.choice(vals)
+            if r < 0.20: case.append(f'ins {e} {v}')
+            elif r < 0.27: case.append(f'rem {e}')
+            elif r < 0.32: case.append(f'upd {e} {v}')
+            elif r < 0.42:
+                sub = 'all' if rng.random() < 0.6 else ','.join(str(x) for x in rng.sample(ents, rng.randint(1, 4)))
+                case.append(f'diff {_pairs(rng, ents, vals)} {sub}')
+            elif r < 0.62:
+                case.append(f'{rng.choice(["adiff", "uwa"])} {rng.randint(0, 1)} {rng.randint(0, 1)} {_pairs(rng, ents, vals, 5)}'); canonical = False
+            elif r < 0.74:
+                case.append(f'{rng.choice(["adiffx", "uwax"])} {rng.randint(0, 1)} {rng.randint(0, 1)} {_diffs(rng, ents, vals)}'); canonical = False
+            elif r < 0.82: case += ['save', 'load']; canonical = True
+            elif r < 0.86: case.append('save')
+            elif r < 0.90: case.append('load'); canonical = True
+            else:
+                case.append(rng.choice(['q map', f'q sentfor {v}'] + ([f'q entfor {v}', f'q ebyval {v}', 'q indexmap'] if canonical else [])))
+        yield case + ['q map', 'q sentfor a', 'q sentfor b', 'q sentfor c', 'save', 'load', 'q map', 'q entfor a', 'q entfor b',
+                      'q entfor c', 'q ebyval a', 'q indexmap', 'q log 1', 'q log 2']
+
+
+def gen_r11(rng, n):
+    """1-1 stores (ecs/src/ecs/r11store.rs): inserts (also over an occupied entity, also a left value already held by another
+    entity), removes, every lookup, filter, save/load boundaries."""
+    ents, lefts, rights = [1, 2, 3, 4], ['p', 'q', 'r'], [10, 20, 30]
+    for _ in range(n):
+        case = []
+        uniq = rng.random() < 0.5            # half of the cases keep left values unique (the intended use of a 1-1 store)
+        for _ in range(rng.randint(2, 22)):
+            r = rng.random()
+            e = rng.choice(ents)
+            if r < 0.40:
+                l = f'{rng.choice(lefts)}{e}' if uniq else rng.choice(lefts)
+                case.append(f'r11-ins {e} {l} {rng.choice(rights)}')
+            elif r < 0.52: case.append(f'r11-rem {e}')
+            elif r < 0.60: case += ['r11-save', 'r11-load']
+            elif r < 0.63: case.append('r11-save')
+            elif r < 0.66: case.append('r11-load')
+            else:
+                l = f'{rng.choice(lefts)}{rng.choice(ents)}' if uniq else rng.choice(lefts)
+                case.append(rng.choice([f'r11-tuple {e}', f'r11-l2r {e}', f'r11-r2l {e}', f'r11-ebl {l}', f'r11-ebr {rng.choice(rights)}',
+                                        f'r11-lbl {l}', f'r11-lbr {rng.choice(rights)}', f'r11-filter {rng.choice([0, 15, 25, 99])}', 'r11-q']))
+        yield case + ['r11-q', 'r11-tuple 1', 'r11-tuple 2', 'r11-lbr 10', 'r11-lbr 20', 'r11-ebr 30', 'r11-filter 15',
+                      'r11-save', 'r11-load', 'r11-q', 'r11-tuple 1', 'r11-l2r 2', 'r11-r2l 3', 'r11-lbr 10', 'r11-ebr 20']
+
+
 # ----------------------------------------------------------------------------------------------
 # independent oracle (python): what the property demands of the implementation's answers
 
@@ -117,6 +194,7 @@ class Ref:
         self.gen_files = 0
         self.r_par, self.r_child, self.r_cp = {}, {}, {}
         self.r_saved = None
+        self.l11, self.r11, self.saved11 = {}, {}, None
 
     def check(self, line, ans):
         """returns None or a description of the violated clause"""
@@ -174,6 +252,90 @@ class Ref:
             if ans == 'panic': return f'{line}: panic'
             got = [] if ans == 'none' else sorted(int(x) for x in ans.strip('[]').split(',') if x)
             return None if got == holders else f'{line}: {ans} but the holders are {holders}'
+        elif op == 'q' and t[1] == 'sentfor':
+            holders = sorted(e for e, v in self.map.items() if v == t[2])
+            if ans == 'panic': return f'{line}: panic'
+            got = [] if ans == 'none' else [int(x) for x in ans.strip('[]').split(',') if x]
+            return None if got == holders else f'{line}: {ans} but the holders are {holders}'
+        elif op == 'diff':
+            acts = {}
+            if t[1] != '-':
+                for it in t[1].split(','):
+                    e, v = it.split(':'); acts[int(e)] = v
+            ents = sorted(set(self.map) | set(acts)) if t[2] == 'all' else sorted({int(x) for x in t[2].split(',')})
+            want = []
+            for e in ents:
+                r, a = self.map.get(e), acts.get(e)
+                if r is None and a is None: continue
+                want.append(f'{e}=' + (f'RM:{a}' if r is None else f'AM:{r}' if a is None else 'I' if r == a else f'D:{r}:{a}'))
+            want = '[' + ','.join(want) + ']'
+            return None if ans == want else f'{line}: {ans} but records {self.map} against actual values {acts} differ as {want}'
+        elif op in ('adiff', 'uwa', 'adiffx', 'uwax'):
+            an, rm = t[1] == '1', t[2] == '1'
+            if op in ('adiff', 'uwa'):
+                acts = {}
+                if t[3] != '-':
+                    for it in t[3].split(','):
+                        e, v = it.split(':'); acts[int(e)] = v
+                for e in sorted(set(self.map) | set(acts)):
+                    r, a = self.map.get(e), acts.get(e)
+                    if r is None and a is not None and an: self.map[e] = a; self.pending.append((e, a))
+                    elif r is not None and a is None and rm: del self.map[e]; self.pending.append((e, None))
+                    elif r is not None and a is not None and r != a: self.map[e] = a; self.pending.append((e, a))
+            else:
+                last = {}
+                if t[3] != '-':
+                    for it in t[3].split(','):
+                        e, d = it.split('='); last[int(e)] = d.split(':')
+                for e, d in last.items():
+                    if d[0] == 'RM' and an: self.map[e] = d[1]; self.pending.append((e, d[1]))
+                    elif d[0] == 'AM' and rm and e in self.map: del self.map[e]; self.pending.append((e, None))
+                    elif d[0] == 'D': self.map[e] = d[2]; self.pending.append((e, d[2]))
+        elif op == 'r11-new':
+            self.l11, self.r11 = {}, {}
+        elif op == 'r11-ins':
+            self.l11[int(t[1])] = t[2]; self.r11[int(t[1])] = int(t[3])
+        elif op == 'r11-rem':
+            self.l11.pop(int(t[1]), None); self.r11.pop(int(t[1]), None)
+        elif op == 'r11-save':
+            self.saved11 = (dict(self.l11), dict(self.r11))
+        elif op == 'r11-load':
+            self.l11, self.r11 = (dict(self.saved11[0]), dict(self.saved11[1])) if self.saved11 else ({}, {})
+        elif op == 'r11-q':
+            want = 'left={' + ','.join(f'{e}:{v}' for e, v in sorted(self.l11.items())) + '} right={' + ','.join(f'{e}:{v}' for e, v in sorted(self.r11.items())) + '}'
+            return None if ans == want else f'{line}: {ans} but a plain map of pairs holds {want}'
+        elif op == 'r11-tuple':
+            e = int(t[1])
+            want = (f'some({self.l11[e]})' if e in self.l11 else 'none') + '|' + (f'some({self.r11[e]})' if e in self.r11 else 'none')
+            return None if ans == want else f'{line}: {ans}, expected {want}'
+        elif op in ('r11-l2r', 'r11-r2l'):
+            e = int(t[1]); m = self.r11 if op == 'r11-l2r' else self.l11
+            want = f'{e}:{m[e]}' if e in m else 'none'
+            return None if ans == want else f'{line}: {ans}, expected {want}'
+        elif op == 'r11-ebl':
+            holders = sorted(e for e, v in self.l11.items() if v == t[1])
+            if len(holders) >= 2:      # the documented panic of a 1-1 lookup on a value held twice; answering with a holder is fine too
+                return None if ans == 'panic' or (ans.isdigit() and int(ans) in holders) else f'{line}: {ans} but the holders are {holders}'
+            want = str(holders[0]) if holders else 'none'
+            return None if ans == want else f'{line}: {ans} but the holders are {holders}'
+        elif op == 'r11-ebr':
+            holders = sorted(e for e, v in self.r11.items() if v == int(t[1]))
+            if ans == 'none': return None if not holders else f'{line}: none but the holders are {holders}'
+            if ans == 'panic': return f'{line}: panic'
+            return None if int(ans) in holders else f'{line}: {ans} is not a holder ({holders})'
+        elif op in ('r11-lbl', 'r11-lbr'):
+            if ans == 'panic': return f'{line}: panic'
+            if op == 'r11-lbl':
+                cands = sorted(str(self.r11[e]) for e, v in self.l11.items() if v == t[1] and e in self.r11)
+            else:
+                cands = sorted(self.l11[e] for e, v in self.r11.items() if v == int(t[1]) and e in self.l11)
+            if ans == 'none': return None if not cands else f'{line}: none but the other side of the holders is {cands}'
+            return None if ans[5:-1] in cands else f'{line}: {ans} is not the other side of a holder ({cands})'
+        elif op == 'r11-filter':
+            k = int(t[1])
+            keep = sorted(e for e in self.l11 if e in self.r11 and self.r11[e] >= k)
+            want = 'left={' + ','.join(f'{e}:{self.l11[e]}' for e in keep) + '} right={' + ','.join(f'{e}:{self.r11[e]}' for e in keep) + '}'
+            return None if ans == want else f'{line}: {ans}, expected {want}'
         elif op == 'q' and t[1] == 'ebyval':
             holders = sorted(e for e, v in self.map.items() if v == t[2])
             if ans == 'none': return None if not holders else f'{line}: none but the holders are {holders}'
@@ -260,7 +422,7 @@ def judge(chk, stream, results):
         chk.evaluations += 1
         for l in case:
             chk.count('op:' + l.split(' ')[0] + ('-' + l.split(' ')[1] if l.startswith('q ') else ''))
-        muts = sum(1 for l in case if l.split(' ')[0] in ('ins', 'upd', 'rem', 'r1n-ins', 'r1n-rmchild', 'gen-session'))
+        muts = sum(1 for l in case if l.split(' ')[0] in ('ins', 'upd', 'rem', 'r1n-ins', 'r1n-rmchild', 'gen-session', 'adiff', 'uwa', 'adiffx', 'uwax', 'r11-ins', 'r11-rem'))
         if muts >= 2 and any(a not in ('ok', '{}', 'none', '[]', 'ret=none', '') for a in a_i):
             chk.nontrivial.add(hashlib.sha1('\n'.join(case).encode()).hexdigest())
         ref = Ref()
@@ -283,10 +445,11 @@ def judge(chk, stream, results):
 def run(chk: Check):
     quick = chk.tier == 'quick'
     model = chk.lean('XvcEcs', 'XvcEcs.Props', exe='ecsmodel', extra_modules=['XvcEcs.Model', 'XvcEcs.Lemmas'])
+    chk.lean('XvcEcs', 'XvcEcs.PropsRel', extra_modules=['XvcEcs.Rel'])
     bindir = chk.build_harness(['ecs_harness', 'ecs_gen_session'])
     impl = os.path.join(bindir, 'ecs_harness')
     chk.trusted_base += [
-        'correspondence harness harness/src/bin/ecs_harness.rs (calls xvc_ecs::XvcStore/R1NStore/XvcEntityGenerator in-process) and lib/c08.py (generators, diff)',
+        'correspondence harness harness/src/bin/ecs_harness.rs (calls xvc_ecs::XvcStore/R1NStore/R11Store/XvcEntityGenerator and xvc_core::types::diff::{diff_store, apply_diff, update_with_actual} in-process) and lib/c08.py (generators, diff)',
         'modelled, not verified: serde_json encoding of events, std::fs, SystemTime-based file names (assumed strictly increasing per directory; the harness checks new files sort last), AtomicU64 counter, the random half of entities',
     ]
     chk.assumptions += ['event-file stamps strictly increase within a directory (hypotheses DirSorted/StampsOK of C08_reload and C08_gen_unique); observed by the harness on every save',
@@ -298,13 +461,16 @@ def run(chk: Check):
     nmerge = 300 if quick else 8000
     ngen = 25 if quick else 150
     nr1n = 300 if quick else 8000
+    ndiff = 1500 if quick else 40000
+    nr11 = 800 if quick else 20000
     chk.extra['rule'] = (f'corpus ({len(CORPUS)} fixed cases incl. the F2 replays); ALL op lists of length <= {maxlen} over the alphabet '
                          '{ins,upd}x{1,2}x{a,b}, rem x{1,2}, save+load (11 letters), each followed by a query block, a reload and the query block again; '
                          f'{nrand} random lists (<=40 ops, 5 entities, 3 values, saves/loads/queries interspersed); {nmerge} fork/merge scenarios '
                          f'(two branches, disjoint entities, saves interleaved in time, merged either way); {ngen} entity-generator histories (one process per session); '
-                         f'{nr1n} random 1-N store histories. A case is non-trivial when it has >= 2 mutating ops and some non-empty answer; distinct by op list.')
+                         f'{nr1n} random 1-N store histories; {nr11} random 1-1 store histories (every lookup, filter, duplicate left values, save/load); {ndiff} histories of the diff layer (diff_store / apply_diff / update_with_actual with all flag combinations, computed and arbitrary diff stores, between ordinary operations and reloads). A case is non-trivial when it has >= 2 mutating ops and some non-empty answer; distinct by op list.')
     streams = [('corpus', CORPUS), ('exhaustive', list(gen_exhaustive(maxlen))), ('random', list(gen_random(chk.rng, nrand))),
-               ('merge', list(gen_merge(chk.rng, nmerge))), ('gen', list(gen_gensessions(chk.rng, ngen))), ('r1n', list(gen_r1n(chk.rng, nr1n)))]
+               ('merge', list(gen_merge(chk.rng, nmerge))), ('gen', list(gen_gensessions(chk.rng, ngen))), ('r1n', list(gen_r1n(chk.rng, nr1n))),
+               ('r11', list(gen_r11(chk.rng, nr11))), ('diff', list(gen_diff(chk.rng, ndiff)))]
     chk.extra['exhaustive'] = False
     chk.extra['exhaustive_part'] = f'all {sum(11 ** k for k in range(1, maxlen + 1))} op lists of length <= {maxlen} over the 11-letter alphabet'
     have_model = os.path.exists(model)
